@@ -125,4 +125,39 @@ ENCODE_CONTRACT(SPEC_UNRESERVED)
         if (rec_) { g_enext = (buffer)->len; g_ekept = g_enext == g_epos + 1; }                                        \
     } while (0)
 
+
+/* ================================================================== ghost log of the delimiter searches (parser units)
+ * ASSUMED model of libc memchr (glibc's memchr is not examined; CBMC's library model is an unbounded loop): straight-line
+ * code that returns the FIRST occurrence -- result index r with s[r] == c, or NULL -- and logs the search (character,
+ * start, length, result index or NONE) in g_mc[].  "First" is the definition of memchr and is what the logged index
+ * means in the parser contracts; the model itself only needs s[r] == c.  It is a body rather than a replaced contract
+ * because every call replaced by a contract costs the back end a write set and several objects (six calls in
+ * s_parse_authority exhaust the default 256 objects). */
+#define NONE SIZE_MAX
+#define MC_MAX 8
+struct mc_rec { uint8_t c; const uint8_t *s; size_t len; size_t res; };
+struct mc_rec g_mc[MC_MAX];
+size_t g_mc_n;
+#ifdef VERIF_URI_MEMCHR_MODEL
+void *memchr(const void *s, int c, size_t n) {
+    __CPROVER_assert(n == 0 || __CPROVER_r_ok(s, n), "memchr: the searched range is readable");
+    __CPROVER_assert(g_mc_n < MC_MAX, "memchr: ghost log large enough");
+    size_t r = nondet_size_t();
+    bool found = nondet_bool();
+    if (found) {
+        __CPROVER_assume(r < n && ((const uint8_t *)s)[r] == (uint8_t)c);
+    } else {
+        r = NONE;
+    }
+    g_mc[g_mc_n].c = (uint8_t)c;
+    g_mc[g_mc_n].s = (const uint8_t *)s;
+    g_mc[g_mc_n].len = n;
+    g_mc[g_mc_n].res = r;
+    g_mc_n++;
+    return found ? (void *)((const uint8_t *)s + r) : NULL;
+}
+#endif
+/* ghost outcome of the decimal parser of the port (see uri_parse_u64_contract in contracts/uri_parser.h) */
+struct pu_rec { bool ok; uint64_t val; size_t len, calls; const uint8_t *ptr; } g_pu;
+
 #endif
